@@ -193,7 +193,7 @@ fn run(input: &Value) -> CaseOut {
             let spec = c["data"].clone();
             let fin = finished.clone();
             let w = scope.spawn(move || {
-                if outcome != 0 { hooks::set_forced("validation.process", vec![outcome]); }
+                hooks::set_forced("validation.process", vec![outcome]);
                 let ex = slurm_of(&spec);
                 let res = Server::verif_process_once(config, engine, history, &mut notify, &ex, false);
                 fin.store(true, Ordering::SeqCst);
